@@ -108,11 +108,17 @@ def rand_len(rng, maxlen: int) -> int:
 
 
 NAMES = ["", "a", "/tmp/test.txt", "dir/子/ファイル.bin", "ü", "x" * 64, "é" * 100, "\U0001F680rocket", "a b\tc"]
+# text hazards: strings that a codec option, a normalisation, a strip()/lower()/split() or a marker search treats specially
+HAZARD_NAMES = ["\ufefffile.txt", "a\ufeffb", "\ufeff", " lead.txt", "trail.txt ", "\ttab", "nl\n", "a\x00b", "\x00", "e\u0301.txt", "\u00e9.txt", "\u2028sep", "\x85nel",
+                "UPPER/Case.TXT", "back\\slash", "/home/cfdp/x.bin", "cfdp", "xcfdpcfdp", "./a/../b", "trailing/", "//double", "%41%00", "a;b|c&d", "\u00a0nbsp", "\U0010ffff",
+                "\u0130I\u0131", "\ufb01ligature", "'quote\"", "name.", ".hidden", "~", "-", "0", "None", "\\x00"]
 
 
 def rand_name(rng, maxbytes=255) -> str:
     r = rng.random()
-    if r < 0.5:
+    if r < 0.2:
+        s = rng.choice(HAZARD_NAMES)
+    elif r < 0.5:
         s = rng.choice(NAMES)
     elif r < 0.7:
         s = "".join(rng.choice("abc/._-xyzXYZ0189") for _ in range(rng.randrange(0, 40)))
